@@ -10,11 +10,13 @@
      (`invoke_callee_error`, `call_callee_error`, `invoke_builtin_error`);
   4. flagship `error_pos_from_ast`: every position in the outcome of `eval` occurs in the evaluated AST,
      in an AST stored in the state, in a module AST of the loader, or is produced by `ld.nativeSem`; the
-     only other position is the default `{}`, and only with one of four messages (`DefaultMsg`):
+     only other position is the default `{}`, and only with one of two kinds of message (`DefaultMsg`):
        * `"<name> is not defined"`      — `Environment.set` failing inside `NodeAssign` / `NodeAssignDestructuring`
-       * `"break outside of a loop"`    — `callFn`, a `break` value reaches the end of a function body
-       * `"continue outside of a loop"` — `callFn`, likewise for `continue`
        * `"Unknown native <name>"`      — `bind_native`
+     The positions carried by the control values `break` / `continue` / `return v` (which `callFn` and
+     `Interpreter.interpret` report for a `break` / `continue` outside a loop) are tracked through the
+     whole state — variables, list / set / map / object cells — as well: they are positions of
+     `break` / `continue` / `return` nodes
      (that these are the only sites is part of the theorem: the invariant is proved WITHOUT assuming that
      `{}` is an allowed position);
   5. concrete programs (an error on line 3 inside a function called on line 5).
@@ -241,8 +243,8 @@ theorem call_eq_invoke {fuel env fnN names args pos s fn s'}
     see `invoke`/`callFn` — and an empty stack trace. -/
 theorem builtin_error_pos {name args div0 pos m} (hm : callPure name args div0 pos = some m)
     {s v msg p t s'} (h : m s = .err v msg p t s') : p = pos ∧ t = [] := by
-  have := (PosOK.callPure (E := fun _ p t => p = pos ∧ t = []) (S := STrue) name args div0 (fun _ => ⟨rfl, rfl⟩) m hm).run s
-    trivial
+  have := (PosOK.callPure (E := fun _ p t => p = pos ∧ t = []) (P := fun _ => True) name
+    (fun kv _ => ValOK.triv kv.2) (fun v _ => ValOK.triv v) (fun _ => ⟨rfl, rfl⟩) m hm).run s (StOK.triv s)
   rw [h] at this
   exact this.1
 
@@ -275,14 +277,14 @@ theorem continue_toplevel_pos {fuel senv ast s p s'} (h : eval ld fuel senv ast 
   unfold interpretProg
   rw [bind_ok h]; rfl
 
-/-- `break` that reaches the end of a function body: the model reports the DEFAULT position `{}`
-    (line 1), not the position `q` of the `break` node.  (Model oddity, see the report: the Python code
-    raises at `result.pos`.) -/
+/-- `break` that reaches the end of a function body: reported at the position `q` of the `break` node
+    (the position carried by the control value), as in `FuncLambda.execute`. -/
 theorem break_in_function_pos {fuel a bound env pos s cenv params defaults body nm s2 q s3}
     (hc : s.cell a = some (.closure cenv params defaults body nm))
     (hb : bindParams ld fuel (s.newEnv cenv).2 params defaults bound pos (s.newEnv cenv).1 = .ok () s2)
     (he : eval ld fuel (s.newEnv cenv).2 body s2 = .ok (.brk q) s3) :
-    callFn ld (fuel+1) (.closure a) bound env pos s = .err errV "break outside of a loop" {} [] s3 := by
+    callFn ld (fuel+1) (.closure a) bound env pos s
+      = .err errV "Cannot use break without surrounding loop" q [] s3 := by
   simp only [callFn]
   rw [bind_ok (getS_run s)]
   simp only [hc]
@@ -294,11 +296,13 @@ theorem break_in_function_pos {fuel a bound env pos s cenv params defaults body 
   rw [bind_ok he]
   rfl
 
+/-- likewise for `continue`: the position of the `continue` node. -/
 theorem continue_in_function_pos {fuel a bound env pos s cenv params defaults body nm s2 q s3}
     (hc : s.cell a = some (.closure cenv params defaults body nm))
     (hb : bindParams ld fuel (s.newEnv cenv).2 params defaults bound pos (s.newEnv cenv).1 = .ok () s2)
     (he : eval ld fuel (s.newEnv cenv).2 body s2 = .ok (.cont q) s3) :
-    callFn ld (fuel+1) (.closure a) bound env pos s = .err errV "continue outside of a loop" {} [] s3 := by
+    callFn ld (fuel+1) (.closure a) bound env pos s
+      = .err errV "Cannot use continue without surrounding loop" q [] s3 := by
   simp only [callFn]
   rw [bind_ok (getS_run s)]
   simp only [hc]
@@ -366,10 +370,12 @@ example : interpretProg {} 1 0 (.brk (l 7)) st1 = .err errV "Cannot use break wi
   break_toplevel_pos {} (by ev)
 example : interpretProg {} 1 0 (.cont (l 7)) st1 = .err errV "Cannot use continue without surrounding loop" (l 7) [] st1 :=
   continue_toplevel_pos {} (by ev)
--- `f = fn() break` with the `break` on line 3, called at line 5: reported at `{}` = line 1
-example : callFn {} 2 (.closure 0) [] 0 (l 5) stB = .err errV "break outside of a loop" {} [] (stB.newEnv 0).1 :=
+-- `f = fn() break` with the `break` on line 3, called at line 5: reported at line 3
+example : callFn {} 2 (.closure 0) [] 0 (l 5) stB
+    = .err errV "Cannot use break without surrounding loop" (l 3) [] (stB.newEnv 0).1 :=
   break_in_function_pos {} (by ev) (by ev) (by ev)
-example : callFn {} 2 (.closure 0) [] 0 (l 5) stCo = .err errV "continue outside of a loop" {} [] (stCo.newEnv 0).1 :=
+example : callFn {} 2 (.closure 0) [] 0 (l 5) stCo
+    = .err errV "Cannot use continue without surrounding loop" (l 3) [] (stCo.newEnv 0).1 :=
   continue_in_function_pos {} (by ev) (by ev) (by ev)
 
 end perConstruct
@@ -552,11 +558,12 @@ theorem prop_forItems_body {fuel env x xs item body r pos s v m p t s'}
   rw [bind_err h]
 
 /-- the `for` node passes an error of the loop on with the same value, message, position and trace;
-    it only removes the loop variables from the frame -/
+    it only removes the loop variables from the frame and puts back the bindings of the same names
+    that the frame had before the loop (`hiddenVars` of the START state) -/
 theorem prop_for {fuel env ids e body what pos s v m p t s'}
     (h : evalFor ld fuel env ids e body what pos s = .err v m p t s') :
     eval ld (fuel+1) env (.for ids e body what pos) s
-      = .err v m p t (ids.foldl (fun s x => s.remove env x) s') := by
+      = .err v m p t (restoreVars env (hiddenVars s env ids) (ids.foldl (fun s x => s.remove env x) s')) := by
   simp only [eval, h]
 
 /-! ### non-vacuity of part 2 (the sub-expression is `error 12` on line 3) -/
@@ -712,32 +719,35 @@ variable {ld : Loader}
 
 /-- **General form.**  Let `P` be any set of positions that contains the positions of all module ASTs
     of the loader and that the interpretation of the unmodelled built-ins respects (`Ctx P ld`).  If every
-    position of the evaluated AST `n` and of every AST stored in the state `s` lies in `P`, then
+    position of the evaluated AST `n` and every position stored in the state `s` (in closure ASTs and in
+    control values held by variables or containers) lies in `P`, then
     * an error outcome carries a position from `P` — or the default position `{}` together with one of the
-      four messages `DefaultMsg` (the four sites of the model that raise without a position),
+      messages `DefaultMsg` (the sites of the model that raise without a position),
     * every stack-trace entry carries a position from `P`,
-    * every position of every AST stored in the final state (whatever the outcome) lies in `P`. -/
+    * a value outcome (a control value `break` / `continue` / `return`) carries positions from `P`,
+    * every position stored in the final state (whatever the outcome) lies in `P`. -/
 theorem error_pos_from_ast_gen {P : Pos → Prop} (ctx : Ctx P ld) (fuel : Nat) (env : EnvId) (n : Node) (s : State)
-    (hn : NodeOK P n) (hs : StOK P s) : OutOK (EP P) (StOK P) (eval ld fuel env n s) :=
+    (hn : NodeOK P n) (hs : StOK P s) : OutOK (EP P) P (eval ld fuel env n s) :=
   ((pAll ctx fuel).eval env n hn).run s hs
 
-/-- where a position may come from: the evaluated AST, an AST stored in the initial state (closure bodies
-    and parameter defaults), a module AST of the loader, or the set `N` of positions the interpretation
-    of the unmodelled built-ins may produce. -/
+/-- where a position may come from: the evaluated AST, the initial state (closure bodies and parameter
+    defaults; control values held by variables and containers), a module AST of the loader, or the set
+    `N` of positions the interpretation of the unmodelled built-ins may produce. -/
 def Origin (ld : Loader) (n : Node) (s : State) (N : Pos → Prop) (q : Pos) : Prop :=
   q ∈ n.positions ∨ q ∈ s.positions ∨ q ∈ ld.positions ∨ N q
 
 /-- the hypothesis on `ld.nativeSem`: whatever set `P ⊇ N` of positions is allowed, an unmodelled
-    built-in only raises errors at positions (and with trace entries) from `P` and only stores ASTs
-    whose positions are in `P` — i.e. the only positions it may introduce itself are those of `N`. -/
+    built-in called with arguments whose positions are in `P` only raises errors at positions (and with
+    trace entries) from `P`, only returns values and only stores ASTs and values whose positions are in
+    `P` — i.e. the only positions it may introduce itself are those of `N`. -/
 def NativeRespects (ld : Loader) (N : Pos → Prop) : Prop :=
-  ∀ P : Pos → Prop, (∀ q, N q → P q) → ∀ name bound, POK P (ld.nativeSem name bound)
+  ∀ P : Pos → Prop, (∀ q, N q → P q) → ∀ name bound, DictOK P bound → POK P (ld.nativeSem name bound)
 
 /-- the driver's interpretation (abstain: `unsupported`) — and any interpretation that never raises a
     runtime error and never touches the heap — respects every `N` -/
 theorem nativeRespects_of_abstains {ld : Loader} {N : Pos → Prop}
     (h : ∀ name bound s, ∃ w, ld.nativeSem name bound s = .fail (.unsupported w) s) : NativeRespects ld N := by
-  intro P _ name bound
+  intro P _ name bound _
   constructor
   intro s hs
   rcases h name bound s with ⟨w, hw⟩
@@ -753,7 +763,7 @@ theorem ctx_origin {ld : Loader} {n : Node} {s : State} {N : Pos → Prop} (hsem
 
 /-- the outcome of `eval` with `P := Origin ld n s N` -/
 theorem eval_origin {N : Pos → Prop} (hsem : NativeRespects ld N) (fuel : Nat) (env : EnvId) (n : Node) (s : State) :
-    OutOK (EP (Origin ld n s N)) (StOK (Origin ld n s N)) (eval ld fuel env n s) :=
+    OutOK (EP (Origin ld n s N)) (Origin ld n s N) (eval ld fuel env n s) :=
   error_pos_from_ast_gen (ctx_origin (n := n) (s := s) hsem) fuel env n s
     ((nodeOK_iff _ n).2 (fun _ hp => Or.inl hp))
     ((stOK_iff _ s).2 (fun _ hp => Or.inr (Or.inl hp)))
@@ -762,10 +772,10 @@ theorem eval_origin {N : Pos → Prop} (hsem : NativeRespects ld N) (fuel : Nat)
     * the error position occurs in the evaluated AST `n`, or in an AST stored in the state `s` (closure
       bodies / parameter defaults), or in a module AST of the loader, or is one of the positions `N` that
       `ld.nativeSem` is allowed to produce — or it is the default position `{}` and the message is one of
-      the four messages that the model raises without a position (`DefaultMsg`);
+      the messages that the model raises without a position (`DefaultMsg`);
     * every stack-trace entry carries a position of one of the first four kinds (never a fabricated
       one, and `{}` only when it is stored in an AST);
-    * every position of every AST stored in the final state is of one of the first four kinds.
+    * every position stored in the final state is of one of the first four kinds.
     Evaluation never fabricates a position. -/
 theorem error_pos_from_ast {N : Pos → Prop} (hsem : NativeRespects ld N) {fuel env n s v m p t s'}
     (h : eval ld fuel env n s = .err v m p t s') :
@@ -775,15 +785,23 @@ theorem error_pos_from_ast {N : Pos → Prop} (hsem : NativeRespects ld N) {fuel
   rw [h] at this
   exact ⟨this.1.pos, this.1.trace, (stOK_iff _ _).1 this.2⟩
 
-/-- whatever the outcome (value, error, failure): the ASTs stored in the final state only hold
-    positions that were there before (in `n`, `s`, the loader) or that `ld.nativeSem` may produce -/
+/-- the positions carried by a value outcome (`break` / `continue` / `return v` control values — the
+    positions that `callFn` and `Interpreter.interpret` report for a `break` / `continue` outside a loop) -/
+theorem value_pos_from_ast {N : Pos → Prop} (hsem : NativeRespects ld N) {fuel env n s v s'}
+    (h : eval ld fuel env n s = .ok v s') : ∀ q ∈ v.positions, Origin ld n s N q := by
+  have := eval_origin hsem fuel env n s
+  rw [h] at this
+  exact (valOK_iff _ v).1 this.1
+
+/-- whatever the outcome (value, error, failure): the final state only holds positions that were there
+    before (in `n`, `s`, the loader) or that `ld.nativeSem` may produce -/
 theorem state_pos_from_ast {N : Pos → Prop} (hsem : NativeRespects ld N) (fuel : Nat) (env : EnvId) (n : Node)
     (s : State) : ∀ q ∈ (eval ld fuel env n s).state.positions, Origin ld n s N q :=
   (stOK_iff _ _).1 (eval_origin hsem fuel env n s).state
 
 /-- with the default interpretation of the unmodelled built-ins and no module ASTs, started in a state
-    without closures: the reported position occurs in the program text `n` (or is `{}` with one of the
-    four messages), and every trace entry carries a position of the program text. -/
+    that holds no position: the reported position occurs in the program text `n` (or is `{}` with one of
+    the `DefaultMsg` messages), and every trace entry carries a position of the program text. -/
 theorem error_pos_in_program {fuel env n s v m p t s'} (hs : s.positions = [])
     (h : eval ({} : Loader) fuel env n s = .err v m p t s') :
     (p ∈ n.positions ∨ (p = {} ∧ DefaultMsg m)) ∧ ∀ e ∈ t, e.2 ∈ n.positions := by
@@ -797,7 +815,7 @@ theorem error_pos_in_program {fuel env n s v m p t s'} (hs : s.positions = [])
     · exact h.elim
   exact ⟨this.1.imp (key p) id, fun e he => key e.2 (this.2.1 e he)⟩
 
-/-- the third site of `{}`: `bind_native` of a name that is not a known native -/
+/-- the other site of `{}`: `bind_native` of a name that is not a known native -/
 theorem unknown_native_pos {fuel inst env pos s nm} (hk : ld.knownNatives.contains (String.ofList nm) = false) :
     callFn ld (fuel+1) (.native "bind_native" inst) [("native", .str nm)] env pos s
       = .err errV ("Unknown native " ++ String.ofList nm) {} [] s := by
@@ -834,17 +852,27 @@ example {v m p t s'} (h : eval {} 20 0 prog st1 = .err v m p t s') :
   error_pos_from_ast (default_nativeRespects _) h
 example : ∀ q ∈ (eval {} 20 0 prog st1).state.positions, Origin {} prog st1 (fun _ => False) q :=
   state_pos_from_ast (default_nativeRespects _) 20 0 prog st1
+-- the value of `break` (line 7) carries the position of the node
+example : ∀ q ∈ (RVal.brk (l 7)).positions, Origin {} (.brk (l 7)) st1 (fun _ => False) q :=
+  value_pos_from_ast (default_nativeRespects _) (fuel := 1) (env := 0) (s' := st1) (by ev)
 -- `bind_native("nope")` with the default loader (no known natives): the default position
 example : callFn {} 1 (.native "bind_native" 0) [("native", .str ['n','o','p','e'])] 0 (l 5) st1
     = .err errV ("Unknown native " ++ String.ofList ['n','o','p','e']) {} [] st1 := unknown_native_pos (by ev)
 
-/-- model oddity, concretely: `def f = fn() break` (line 3) with the `break` on line 4, `f()` on line 6
-    (nothing on line 1) — the model reports the default position `{}` (line 1) and the message
-    "break outside of a loop", whereas `FuncLambda.execute` of the Python code raises
-    "Cannot use break without surrounding loop" at `result.pos` (line 4). -/
+/-- `def f = fn() break` (line 3) with the `break` on line 4, `f()` on line 6 (nothing on line 1): the
+    error is reported at the position of the `break` node, line 4, as `FuncLambda.execute` does. -/
 def progBrk : Node :=
   .block [ .defn "f" (.lambda [] [] (.brk (l 4)) (l 3)) "" (l 3), .call (.ident "f" (l 6)) [] [] (l 6) ] [] [] [] true (l 2)
-example : ∃ s', eval {} 20 0 progBrk st1 = .err errV "break outside of a loop" {} [("f", l 6)] s' := ⟨_, by ev⟩
+example : ∃ s', eval {} 20 0 progBrk st1
+    = .err errV "Cannot use break without surrounding loop" (l 4) [("f", l 6)] s' := ⟨_, by ev⟩
+-- the control value may travel through the state: `def xs = [break]` (line 3), `def f = fn() xs[0]` (line 4),
+-- `f()` on line 6: still the position of the `break` node, line 3
+def progBrk2 : Node :=
+  .block [ .defn "xs" (.list [.brk (l 3)] (l 3)) "" (l 3),
+           .defn "f" (.lambda [] [] (.deref (.ident "xs" (l 4)) (.lit (.int 0) (l 4)) .absent (l 4)) (l 4)) "" (l 4),
+           .call (.ident "f" (l 6)) [] [] (l 6) ] [] [] [] true (l 2)
+example : ∃ s', eval {} 20 0 progBrk2 st1
+    = .err errV "Cannot use break without surrounding loop" (l 3) [("f", l 6)] s' := ⟨_, by ev⟩
 example : ({} : Pos) ∉ progBrk.positions := by decide
 
 -- the function stored in the state: positions come from the state (`stF` holds `f = fn() error 12`)
@@ -855,13 +883,13 @@ example : l 3 ∈ stF.positions := by decide
 -- the hypotheses of the general form: the position set "`{}` or a position of `prog`" and the default loader
 example : Ctx (Origin {} prog st1 (fun _ => False)) {} := ctx_origin (default_nativeRespects _)
 example : NodeOK (Origin {} prog st1 (fun _ => False)) prog := (nodeOK_iff _ _).2 (fun _ hp => Or.inl hp)
-example : StOK (Origin {} prog st1 (fun _ => False)) st1 := StOK.of_heap_eq rfl (StOK.empty _)
+example : StOK (Origin {} prog st1 (fun _ => False)) st1 := (stOK_iff _ _).2 (fun _ hp => nomatch hp)
 example : NativeRespects ({} : Loader) (fun _ => False) := default_nativeRespects _
 
 /-- a loader whose unmodelled built-ins all fail with an error at line 99: it respects `N = {line 99}` -/
 def ldBoom : Loader := { nativeSem := fun _ _ s => .err errV "boom" (l 99) [] s }
 theorem ldBoom_respects : NativeRespects ldBoom (· = l 99) := by
-  intro P hP name bound
+  intro P hP name bound _
   exact ⟨fun s hs => ⟨⟨Or.inl (hP _ rfl), fun _ h => nomatch h⟩, hs⟩⟩
 example {fuel env n s v m p t s'} (h : eval ldBoom fuel env n s = .err v m p t s') :
     Origin ldBoom n s (· = l 99) p ∨ (p = {} ∧ DefaultMsg m) := (error_pos_from_ast ldBoom_respects h).1
